@@ -11,6 +11,7 @@ package zlibcut
 // payload, the 4-byte Adler-32 trailer) stays inside both the limit and the buffer.
 //@ func Cut
 //@   prop C16
+//@   requires len(encoded) <= 0x100000000000000
 //@   ensures implies(retErr == nil, 0 <= encodedLen && encodedLen <= maxEncodedLen && encodedLen <= len(encoded) && decodedLen >= 0)
 //@   ensures implies(retErr != nil, encodedLen == 0 && decodedLen == 0)
 //@   modifies mem(encoded)
